@@ -173,7 +173,8 @@ MatchCall(a) ==
     IF Len(a) \notin {2, 3} THEN Open
     ELSE LET key == a[1]
              arr == a[2]
-             mt  == IF Len(a) = 3 THEN a[3] ELSE Whole(1)
+             \* (the match type written as the logical FALSE is the number 0 - an exact search, C08; TRUE is left open)
+             mt  == IF Len(a) = 3 THEN (IF a[3] = Bool(FALSE) THEN Whole(0) ELSE a[3]) ELSE Whole(1)
          IN IF ~(IsColumn(arr) /\ AllCellsOk(arr) /\ KeyOk(key) /\ mt.t = "num") THEN Open
             ELSE LET col == Column(arr, 1) IN
                  IF mt = Whole(0) THEN
